@@ -166,7 +166,7 @@ func idEq(a, b *jv) bool {
 	}
 }
 
-func argEq(t ptype, want, got *jv) bool { return jeq(want, got, t == tAny) }
+func argEq(t ptype, want, got *jv) bool { return jeq(want, got, isLooseNum(t)) }
 
 func argsMatch(m *mspec, want []*jv, got []*jv) bool {
 	if len(want) != len(got) {
